@@ -28,19 +28,20 @@
  * facts about the resulting address value V = value(d->value):
  *       V % ALIGN == 0,     A <= V,     V + S <= A + s          (A, s: address and size of the one alloc)
  */
-#define NT 6
+#define NT 5
 struct aghost {
 	unsigned n;                 /* instructions emitted                                                           */
 	unsigned nalloc;            /* how many of them were allocs                                                    */
-	u64 tval[NT];               /* ghost run-time value of the result of instruction k                             */
 	u64 A, s;                   /* address returned by / size given to the alloc                                   */
 	unsigned N;                 /* alignment the alloc opcode guarantees                                           */
 	struct block *blk;          /* block (f->end) the alloc was appended to                                        */
-	bool ok_op;                 /* only alloc4/8/16, add, and; all of class l with known operands                  */
+	bool ok_op;                 /* only alloc4/8/16, add, and; all of class l with two/one operands                */
 	bool ok_blk;                /* all instructions went to the same block as the alloc                            */
 	bool vla_done;              /* calcvla() was called (before the first instruction)                             */
 };
 struct aghost g;
+/* result temporaries handed out by the stub and the VLA size temporary; the GHOST RUN-TIME VALUE of each is kept in
+   its own u.i field (unused for VALUE_TEMP), so that "value of an operand" is v->u.i for constants and temporaries */
 struct value g_t[NT], g_vla;
 u64 g_A, g_vlasize, g_size;     /* arbitrary stack address; run-time size of a VLA; bytes the object needs         */
 int g_align;
@@ -48,29 +49,6 @@ struct func *g_func;
 struct block *g_start0, *g_end0;
 struct decl *g_d;
 struct type *g_type;
-
-/* ghost run-time value of an operand */
-static u64
-aval(struct value *v, bool *known)
-{
-	*known = 1;
-	if (v == 0) {
-		*known = 0;
-		return 0;
-	}
-	if (v == &g_vla)
-		return g_vlasize;
-	if (v == &g_t[0]) return g.tval[0];
-	if (v == &g_t[1]) return g.tval[1];
-	if (v == &g_t[2]) return g.tval[2];
-	if (v == &g_t[3]) return g.tval[3];
-	if (v == &g_t[4]) return g.tval[4];
-	if (v == &g_t[5]) return g.tval[5];
-	if (v->kind == VALUE_INTCONST)
-		return v->u.i;
-	*known = 0;
-	return 0;
-}
 
 void
 rec_calcvla(struct func *f, struct type *t)
@@ -82,52 +60,51 @@ rec_calcvla(struct func *f, struct type *t)
 struct value *
 rec_funcinst(struct func *f, int op, int class, struct value *arg0, struct value *arg1)
 {
-	bool k0, k1;
-	u64 a0, a1;
 	unsigned k = g.n;
+	struct value *r;
 
-	if (k >= NT - 1) {
+	if (k >= NT - 1 || arg0 == 0) {
 		g.ok_op = 0;
 		return &g_t[NT - 1];
 	}
 	g.n = k + 1;
-	a0 = aval(arg0, &k0);
-	if (f != g_func || class != 'l' || !k0)
+	r = &g_t[k];
+	if (f != g_func || class != 'l')
 		g.ok_op = 0;
 	if (QBE_ALLOC_ALIGN(op) != 0) {
 		if (arg1 != 0)
 			g.ok_op = 0;
 		g.nalloc++;
 		g.N = QBE_ALLOC_ALIGN(op);
-		g.s = a0;
+		g.s = arg0->u.i;
 		g.A = g_A & ~(u64)(g.N - 1);      /* any multiple of N */
 		g.blk = f->end;
-		g.tval[k] = g.A;
-		return &g_t[k];
+		r->u.i = g.A;
+		return r;
 	}
-	a1 = aval(arg1, &k1);
-	if (!k1)
+	if (arg1 == 0) {
 		g.ok_op = 0;
+		return r;
+	}
 	if (op == IADD)
-		g.tval[k] = a0 + a1;
+		r->u.i = arg0->u.i + arg1->u.i;
 	else if (op == IAND)
-		g.tval[k] = a0 & a1;
+		r->u.i = arg0->u.i & arg1->u.i;
 	else
 		g.ok_op = 0;
 	if (g.nalloc != 0 && f->end != g.blk)
 		g.ok_blk = 0;
-	return &g_t[k];
+	return r;
 }
 
 #define ISVLA      (g_type->size == 0)
-#define V          (aval_nk(d->value))      /* ghost run-time value of the address the object is given */
-static u64 aval_nk(struct value *v) { bool k; return aval(v, &k); }
+#define V          (d->value->u.i)          /* ghost run-time value of the address the object is given */
 
 #define PRE(X) \
 	X(f != 0 && f == g_func && d != 0 && d == g_d && d->type != 0 && d->type == g_type) \
 	X(f->start != 0 && f->end != 0 && f->start == g_start0 && f->end == g_end0) \
 	X(!g_type->incomplete) \
-	X(IMP(ISVLA, g_type->kind == TYPEARRAY && g_type->u.array.size == &g_vla)) \
+	X(IMP(ISVLA, g_type->kind == TYPEARRAY && g_type->u.array.size == &g_vla && g_vla.u.i == g_vlasize)) \
 	X(d->u.obj.align >= 1 && d->u.obj.align <= (1 << 30) && SPEC_ISPOW2(d->u.obj.align) && d->u.obj.align == g_align) \
 	X(g_size == (ISVLA ? g_vlasize : g_type->size) && g_size <= (1ull << 40) && g_A <= (1ull << 62)) \
 	X(g.n == 0 && g.nalloc == 0 && g.ok_op && g.ok_blk && !g.vla_done)
@@ -157,7 +134,7 @@ static u64 aval_nk(struct value *v) { bool k; return aval(v, &k); }
 
 static void funcalloc_contract(struct func *f, struct decl *d)
 REQUIRES(PRE)
-__CPROVER_assigns(g, f->end, d->value)
+__CPROVER_assigns(g, f->end, d->value, __CPROVER_object_whole(g_t))
 ENSURES(POST);
 
 void
@@ -189,12 +166,11 @@ harness(void)
 	dd.u.obj.align = in_align;
 	dd.value = 0;
 	g_vla.kind = VALUE_TEMP;
+	g_vla.u.i = g_vlasize;
 	g_func = f; g_d = d; g_type = &tt; g_start0 = fn.start; g_end0 = fn.end; g_align = in_align;
 	g_size = in_size ? in_size : g_vlasize;
 	g.n = 0; g.nalloc = 0; g.A = 0; g.s = 0; g.N = 0; g.blk = 0; g.ok_op = 1; g.ok_blk = 1; g.vla_done = 0;
-	for (i = 0; i < NT; i++) {
-		g.tval[i] = 0;
+	for (i = 0; i < NT; i++)
 		g_t[i].kind = VALUE_TEMP;
-	}
 	CALL(PRE, POST, funcalloc(f, d));
 }
